@@ -24,12 +24,12 @@ FID_O11 = "O11-add-z1-unreduced"
 
 RULE = (
     "(1) small_*: for prime-order curves over F_p found by brute-force point counting (quick p in {11,23,31}; thorough every prime 11..47, 2-3 "
-    "curves each) EVERY group element in EVERY Jacobian scaling z=1..p-1, plus the library-made forms (-P with its unreduced negative Y, results of "
-    "*, + before/after scale(), table results, to_affine() Points incl. unreduced ones, -Point, INFINITY) is enumerated: all ordered operand pairs for +, "
+    "curves each) EVERY group element in EVERY Jacobian scaling z=1..p-1, plus the library-made forms (-P, results of "
+    "*, + before/after scale(), table results, to_affine() Points, (-P).to_affine(), -Point, INFINITY) is enumerated: all ordered operand pairs for +, "
     "all operands for double / negation / x() / y() / scale() / to_affine() / == on a representation sub-grid, all scalars 0..2n (+ a few larger) for * "
     "with order, without order and with the precomputed table (generator=True), affine Point * k, k * P; mul_add for all (k1,k2) in 0..n+1 on an operand "
     "sub-grid and for all operand points on a scalar sub-grid. Oracle: vlib/ecref affine chord-and-tangent law with explicit infinity (addition table "
-    "built entry by entry, checked to be the cyclic group). Enumerated cases are distinct by construction; non-trivial = an operand at infinity, equal "
+    "built entry by entry, checked to be the cyclic group); x() and y() of a library result must BE the affine coordinates 0..p-1 (a congruent value outside that range is a wrong result - it used to be reduced by the harness, which hid three defects, see KNOWN_FINDINGS). Enumerated cases are distinct by construction; non-trivial = an operand at infinity, equal "
     "or inverse operands, a scaling z != 1 or an unreduced coordinate, or (for *) a scalar in {0,1,2,n-1,n,n+1,2n} or >= n. "
     "(2) diff_edge/diff: on the 17 shipped short-Weierstrass curves k*G through the shared generator (table path), k*P on fresh points in mixed "
     "representations (NAF path, table path, affine Point), mul_add, + of random/equal/inverse/infinite operands in mixed representations, double, "
@@ -44,7 +44,7 @@ RULE = (
 ASSUMPTIONS = [
     "oracles: vlib/ecref (affine textbook law, pinned by P-256 vectors and group axioms of the tabulated curves) and OpenSSL libcrypto; where both are "
     "evaluated they must agree, a disagreement is a harness error",
-    "results are compared as affine coordinates reduced mod p (an unreduced but congruent coordinate of a result is not judged)",
+    "results are compared as exact affine coordinates: x() and y() must lie in 0..p-1 (the class names 'unreduced-*' denote the library-made negated forms, which stored an unreduced Y before fix 5a96d74)",
     "curve parameters (p, a, b, G, n) of the shipped curves are taken from OpenSSL and compared with the library's once per curve",
     "the known finding O11 is recognised by re-running the failing case with PointJacobi._add_with_z_1 fed reduced coordinates: it is excluded only if "
     "that makes the result correct AND the call saw congruent-but-unequal raw operands",
@@ -95,6 +95,14 @@ def exc_str(e):
     return "%s: %s" % (type(e).__name__, str(e)[:200])
 
 
+def _canon(x, y, p):
+    """x() and y() are the affine coordinates, i.e. elements 0..p-1 (what OpenSSL reports); a congruent value outside that range is a wrong
+    coordinate (it breaks the point encodings and the range check of public keys), so it is reported as such instead of being reduced here."""
+    if 0 <= x < p and 0 <= y < p:
+        return (x, y)
+    return ("coordinate-out-of-range", x, y)
+
+
 def aff(res, p):
     """Affine value of a library result: None for infinity, else (x mod p, y mod p)."""
     if res is INFINITY:
@@ -102,11 +110,11 @@ def aff(res, p):
     if isinstance(res, Point):
         if res.x() is None:
             return None
-        return (int(res.x()) % p, int(res.y()) % p)
+        return _canon(int(res.x()), int(res.y()), p)
     if isinstance(res, PointJacobi):
         if res == INFINITY:
             return None
-        return (int(res.x()) % p, int(res.y()) % p)
+        return _canon(int(res.x()), int(res.y()), p)
     return ("not-a-point", repr(res)[:80])
 
 
@@ -210,7 +218,7 @@ def build_small(S, rep, order=True, gen=False):
         if not ng:
             return PointJacobi(cv, x * z * z % p, y * z * z * z % p, z, n, gen)
         qx, qy = C.pts[C.NEG[i]]
-        P = -PointJacobi(cv, qx * z * z % p, qy * z * z * z % p, z, n)  # the library's own negation: Y = -(qy z^3 mod p) < 0
+        P = -PointJacobi(cv, qx * z * z % p, qy * z * z * z % p, z, n)  # the library's own negation (stored Y = -(qy z^3 mod p) < 0 before fix 5a96d74)
         if gen:
             P = PointJacobi.from_affine(P.to_affine(), True)  # the chain VerifyingKey.precompute() uses
         return P
@@ -219,7 +227,7 @@ def build_small(S, rep, order=True, gen=False):
     if t == "an":
         qx, qy = C.pts[C.NEG[i]]
         return -Point(cv, qx, qy, n)
-    if t == "au":  # affine Point with unreduced negative y, as made by (-P).to_affine()
+    if t == "au":  # (-P).to_affine() (an affine Point with unreduced negative y before fix 5a96d74)
         qx, qy = C.pts[C.NEG[i]]
         return (-PointJacobi(cv, qx, qy, 1, n)).to_affine()
     if t == "lib":
@@ -414,7 +422,7 @@ def bulk_small_pairs(tier, shard, nshards, rec, rng):
                     if r is INFINITY:
                         ok = e is None
                     else:
-                        ok = e is not None and r.x() % p == e[0] and r.y() % p == e[1]
+                        ok = e is not None and r.x() == e[0] and r.y() == e[1]
                 except Exception:
                     ok = False
                 if not ok:
@@ -497,8 +505,6 @@ def bulk_small_unary(tier, shard, nshards, rec, rng):
                 evals += 1
                 nt += 1 if (z != 1 or ur) else 0
                 rec.cls("small.unary." + op)
-            if rep[0] == "au":
-                continue  # == of affine Points compares raw coordinates; not judged for the unreduced form
             for repB in eqB:
                 case = dict(cv=key, op="eq", A=rep, B=repB)
                 try:
@@ -563,7 +569,7 @@ def bulk_small_mul(tier, shard, nshards, rec, rng):
                         if r is INFINITY:
                             ok = e is None
                         else:
-                            ok = e is not None and r.x() % p == e[0] and r.y() % p == e[1]
+                            ok = e is not None and r.x() == e[0] and r.y() == e[1]
                     except Skip:
                         continue
                     except Exception:
@@ -650,7 +656,7 @@ def bulk_small_muladd(tier, shard, nshards, rec, rng):
                 if r is INFINITY:
                     ok = e is None
                 else:
-                    ok = e is not None and r.x() % p == e[0] and r.y() % p == e[1]
+                    ok = e is not None and r.x() == e[0] and r.y() == e[1]
             except Skip:
                 continue
             except Exception:
